@@ -117,6 +117,8 @@ FIXED = [
     ("C18", "d20b976", "`1/Math.ceil(-0.5)`, `1/Math.trunc(-0.5)`, `1/Math.round(-0.2)`, `1/Math.sign(-0)`, `1/parseInt('-0')` were Infinity, `Math.max(1, NaN)` 1, `1/Math.max(-0, 0)` -Infinity, `Math.round(0.49999999999999994)` 1: host ints without -0, host min()/max(), floor(x + 0.5)"),
     ("C18", "d0c0de9", "`(0.5).toString(2)` was '0.5' and `(255.5).toString(16)` '255.5': the radix was ignored for numbers with a fraction (host str())"),
     ("C17", "be9193d", "`var a=new Uint16Array(1); a[0]=NaN` raised a Python ValueError, `a[0]=Infinity` an OverflowError, `new Float32Array(1)[0]=1e40` an OverflowError, and `a[0]='7'` stored 0: element conversion by int()/struct.pack on isinstance-narrowed values without ToNumber"),
+    ("C20", "612acbc", "`var r=/a*/g; r.exec('b'); r.lastIndex` was 1 (ECMAScript: 0, the end of the empty match): exec/test stepped over an empty match themselves"),
+    ("C20", "b4f512e", "`'abc'.split(/x*/)` was ['', 'a', 'b', 'c', ''], `'abc'.split(/b*/)` ['', 'a', '', 'c', ''], `''.split(/x*/)` two pieces: empty matches at the previous end and at the end of the string taken for separators"),
 ]
 
 
